@@ -120,22 +120,33 @@ Section Closure.
       apply P_bind; [apply P_cleanup_loop|intros r].
       apply P_bind; [apply P_upd_done|intros _]. apply P_ret.
     Qed.
+    Lemma P_custom_end r : P (custom_end r).
+    Proof.
+      unfold custom_end.
+      assert (H : P (_ <- emit_u (UCustomEnd (match r with Ok _ => 0 | Err _ => 1 end)) ;;
+                   match r with Ok v => _ <- failOnError SCustomFOE ;; ret v | Err e => throw e end)).
+      { apply P_bind; [apply P_emit_u|intros _]. destruct r; pa. }
+      destruct r as [v|[]]; try exact H. apply P_throw.
+    Qed.
     Lemma P_custom_att (body : M val) : P body -> P (custom_att LF crun body).
     Proof.
       intros Hb. unfold custom_att. apply P_fresh. unfold custom_inner.
-      apply P_bind; [apply P_emit_u|intros _]. apply P_try; [exact Hb|intros r].
+      apply P_bind; [apply P_emit_u|intros _].
+      apply P_try; [apply P_try; [exact Hb|apply P_custom_end]|intros r].
       unfold custom_handler.
-      assert (H : P (_ <- emit_u (UCustomEnd (match r with Ok _ => 0 | Err _ => 1 end)) ;;
+      assert (H : P (
+                   t0 <- get_ts ;;
                    c <- cleanup LF crun ;;
                    match c, r with
                    | Some e, Err (XInvalid m) => _ <- (if internal_msg m then mark_dirty else ret tt) ;; throw e
                    | Some e, _ => throw e
                    | None, Ok v => ret (Some v)
-                   | None, Err (XInvalid _) => ret None
+                   | None, Err (XInvalid m) => match failed t0 with Some _ => throw (XInvalid m) | None => ret None end
                    | None, Err e => throw e
                    end)).
-      { apply P_bind; [apply P_emit_u|intros _]. apply P_bind; [apply P_cleanup|intros c].
-        destruct c as [e|]; destruct r as [v|e']; pa; destruct e'; pa; destruct (internal_msg m); pa. }
+      { apply P_bind; [apply P_get_ts|intros t0].
+        apply P_bind; [apply P_cleanup|intros c].
+        destruct c as [e|]; destruct r as [v|e']; pa; destruct e'; pa; try (destruct (internal_msg m); pa); destruct (failed t0); pa. }
       destruct r as [v|[]]; try exact H. apply P_throw.
     Qed.
 
@@ -145,7 +156,7 @@ Section Closure.
       intros Ha. unfold run_action. apply P_try_w.
       - apply P_try_w; [apply Ha|]. intros r wa. apply P_bind; [apply P_emit_u|intros _]. destruct r; pa.
       - intros r wa. destruct r as [v|e]; [pa|]. destruct e; pa.
-        destruct (Nat.eqb _ _); pa. destruct (internal_msg m); pa.
+        destruct (failed a); pa. destruct (Nat.eqb _ _); pa. destruct (internal_msg m); pa.
     Qed.
     Lemma P_exec_action id nacts (run_act : nat -> val -> M val) :
       (forall i s, P (run_act i s)) -> forall tries s, P (exec_action geom LF id nacts run_act tries s).
